@@ -150,7 +150,7 @@ class C02(Prop):
     id = 'C02'
     props_file = 'Props/C02.v'
     imports = ['Model.DispatchOrder', 'Model.DispatchOrderObs']
-    quick_n = 700
+    quick_n = 480
     thorough_n = 9000
     rule = ('programs over <= 8 event names; handlers (0-3 per name, on two components) with priorities from '
             '{-2,-1,-0.5,0,0.5,1,3, 1.0,-0.0,True,False,...}, bodies of <= 4 actions fire(name,priority)/event.stop()/flush(), '
@@ -212,7 +212,7 @@ class C02(Prop):
                     prog.append(['cf', rng.randint(0, nn - 1), rng.choice(pr)])
             prog += [['x']] * (nn + 2)
             case = {'k': kind, 'handlers': handlers, 'prog': prog}
-            if est_events(case) <= (160 if tier == 'thorough' else 90):
+            if est_events(case) <= (160 if tier == "thorough" else 70):
                 return case
 
     def generate(self, rng, n, tier):
